@@ -9,7 +9,7 @@ HARNESSES.append(
     dict(name="rebuild", src="rebuild.c", extra_src=["lib/ext2fs/dir_iterate.c"],
          funcs=["fill_dir_block", "copy_dir_entries", "get_next_block"],
          cut_statics={"e2fsck/rehash.c": ["alloc_size_dir"]},
-         configs=[{"BLK": 32}, {"BLK": 36, "SWAP": None}, {"BLK": 32, "COMPRESS": None}, {"BLK": 48, "SWAP": None, "_tier": "thorough"}],
+         configs=[{"BLK": 32, "SWAP": None}, {"BLK": 32, "COMPRESS": None}, {"BLK": 36, "SWAP": None, "_tier": "thorough"}, {"BLK": 48, "SWAP": None, "_tier": "thorough"}],
          unwind=4, unwindset=["ref_count.0:50", "ref_count.1:14", "fill_dir_block.0:8", "copy_dir_entries.0:7",
                               "main.0:50", "main.1:10", "main.2:10", "main.3:7", "main.4:7", "ext2fs_read_dir_block4.0:50",
                               "memcpy.0:50", "memset.0:50"],
@@ -62,6 +62,26 @@ def _extwrite():
     raise RuntimeError("C01 extwrite harness missing")
 HARNESSES += _extwrite()
 
+HARNESSES.append(
+    dict(name="rehashsel", src="rehashsel.c",
+         funcs=["e2fsck_rehash_dir", "free_out_dir"],
+         cut_statics={"e2fsck/rehash.c": ["duplicate_search_and_fix", "copy_dir_entries", "calculate_tree", "write_directory"]},
+         configs=[{"ISIZE": 256}, {"ISIZE": 64}],
+         unwind=5, unwindset=["main.0:10", "main.1:10", "main.2:18", "main.3:18", "vf_event.0:18", "ext2fs_block_iterate3.0:10", "e2fsck_rehash_dir.0:4", "e2fsck_rehash_dir.1:5"],
+         backends=["default", "kissat"],
+         bound="directory of 256 / 64 bytes at block size 64, up to 8 / 2 entries; i_flags, features, options, encoding present/absent, dir_size, "
+               "duplicate-fix results symbolic"))
+def DF_UW(n):
+    return ["main.%d:14" % i for i in range(12)] + ["ref_same.0:6", "ref_hash.0:6", "ext2fs_casefold_cmp.0:6", "__ctype_b_loc.0:12",
+            "duplicate_search_and_fix.0:%d" % (n * n + 2), "duplicate_search_and_fix.1:%d" % (n + 1), "mutate_name.0:6", "mutate_name.1:6",
+            "memcmp.0:6", "memcpy.0:6"]
+HARNESSES.append(
+    dict(name="dupfix", src="dupfix.c",
+         funcs=["duplicate_search_and_fix", "same_name", "mutate_name", "hash_cmp", "name_cmp", "name_cf_cmp"],
+         configs=[{"NENT": 2, "CF": 0, "_unwindset": DF_UW(2)}, {"NENT": 2, "CF": 1, "_unwindset": DF_UW(2)},
+                  {"NENT": 3, "CF": 0, "_unwindset": DF_UW(3), "_tier": "thorough"}, {"NENT": 3, "CF": 1, "_unwindset": DF_UW(3), "_tier": "thorough"}],
+         unwind=6, backends=["default", "kissat"],
+         bound="2 / 3 entries, names of 1..4 symbolic bytes, inode, type, hashes symbolic; case-sensitive and casefolded directory"))
 MANIFEST = {
     "text": "Kernel-level slice (partial). Bounded-exhaustive on one fully symbolic directory block: fill_dir_block indexes exactly the live entries "
             "(minus . and .. in non-compress mode) with the right inode, size sum and parent; fill_dir_block -> copy_dir_entries preserves the multiset "
@@ -69,6 +89,8 @@ MANIFEST = {
             "The hash algorithm/seed/name handed to ext2fs_dirhash2 are the format's (unsigned variant iff flagged). load_extents (extent rebuild) keeps every "
             "logical block's physical block and initialised/uninitialised state for a 2-3 node walk with a symbolic probe block. check_ext_attr with the real "
             "region accounting keeps every well-formed 72-byte xattr block (no problem, i_file_acl kept) and reports every value overlap. "
+            "duplicate_search_and_fix renames / drops an entry only when it is a duplicate in the directory's own sense (byte-identical without "
+            "EXT4_CASEFOLD_FL), and e2fsck_rehash_dir installs the case-insensitive comparison iff the filesystem has an encoding AND the directory has the flag. "
             "File preservation across a whole e2fsck run is outside.",
     "note": "Trusted: CBMC's C semantics; hash replaced by a deterministic stub (order only); alloc_size_dir cut to a static area; sorting between the "
             "two steps represented by one symbolic transposition (config SWAP).",
